@@ -34,13 +34,13 @@ def run(tier, seed, res):
     res.rule = RULE
     res.assumptions = ["same script preconditions and exclusions as C03 (see evidence/C03.json assumptions)",
                        "single process: occupancy counters and stamps are per process; cross-rank copies are covered by C03/C17 values"]
-    n = 400 if quick else 15000
+    n = 1600 if quick else 15000
     per = 20 if quick else 50
     stats = {}
     scripts = g.generate(g.scripts("c04", stats=stats), n, seed)
     nb = (n + per - 1) // per
     cfgs = g.generate(g.proc_cfgs(ranks=1, tmin=4, tmax=16), nb, seed * 131 + 7)
-    batches = [(dict(cfgs[i], tq=5 if quick else 20), scripts[i::nb]) for i in range(nb)]
+    batches = [(dict(cfgs[i % len(cfgs)], tq=5 if quick else 20), scripts[i::nb]) for i in range(nb)]      # the configuration space is finite: generate() may return fewer than nb distinct ones
     c03.execute(PROP, drv, batches, WHICH, res,
                 lambda s, f, o: f["rbw"] >= 1 and o.cfg["threads"] >= 4 and o.facts.get("overlap", 0) > 0)
     res.coverage.update({"generator_" + k: v for k, v in stats.items()})
